@@ -3,6 +3,6 @@
 cd "$(dirname "$0")/.." || exit 3
 rc=0
 for p in $(python3 -c "import json;print(' '.join(c['property_id'] for c in json.load(open('MANIFEST.json'))['checks']))"); do
-  python3-vt -m pyvc.cli check $p "$@" | tail -1
+  python3-vt -m pyvc.cli check $p "$@" | grep -v "^  " | grep -E "^(OK|FAIL|UNDECIDED|VIOLATION|KNOWN)" | tail -4
   [ ${PIPESTATUS:-0} -eq 0 ] || true
 done
